@@ -920,6 +920,11 @@ pub fn to_vec_custom(value: &Value, options: Options) -> io::Result<Vec<u8>> {
 #[inline]
 pub fn to_string(value: &Value) -> io::Result<String> {
     let vec = to_vec(value)?;
+    #[cfg(feature = "verif-hooks")]
+    assert!(
+        std::str::from_utf8(&vec).is_ok(),
+        "verif: ill-formed UTF-8 at print::to_string"
+    );
     let string = unsafe {
         // We do not emit invalid UTF-8.
         String::from_utf8_unchecked(vec)
@@ -931,6 +936,11 @@ pub fn to_string(value: &Value) -> io::Result<String> {
 #[inline]
 pub fn to_string_custom(value: &Value, options: Options) -> io::Result<String> {
     let vec = to_vec_custom(value, options)?;
+    #[cfg(feature = "verif-hooks")]
+    assert!(
+        std::str::from_utf8(&vec).is_ok(),
+        "verif: ill-formed UTF-8 at print::to_string_custom"
+    );
     let string = unsafe {
         // We do not emit invalid UTF-8.
         String::from_utf8_unchecked(vec)
